@@ -432,6 +432,14 @@ def demoV : View (List Nat) := { slots := fun _ => 0, native := [], logs := [] }
 example : Clean demo ∧ NoPanic demo :=
   ⟨.sstore (.call (clean_preA (.sstore .revert)) (clean_preA .nil)),
    .sstore (.call (noPanic_preA (.sstore .revert)) (noPanic_preA .nil))⟩
+-- every real method's shape can sit in a program, with an ERC-20 callee program inside its native action that calls a
+-- precompile again (a native action inside a native action): such programs are `FromTable`, hence all-or-nothing
+example : ∀ rf ∈ runFacts, FromTable (N := List Nat)
+    [.call (demoHdr true)
+      [.pre (demoHdr false) 50 (shapeOf rf) id [(30000000, [.pre (demoHdr false) 50 (shapeOf rf) id [] (demoAct 7).lift, .sstore 100 3 9])]
+        (demoAct 1).lift, .revert 3]] :=
+  fun rf hrf => .call (.pre ⟨rf, hrf, rfl⟩
+      (by intro x hx; simp at hx; subst hx; exact .pre ⟨rf, hrf, rfl⟩ (by simp) (.sstore .nil)) .revert) .nil
 example : (runTx 10 1000000 demo demoV).1 = .ok := by decide
 example : (runTx 10 1000000 demo demoV).2.1.native = [2] := by decide
 example : (runTx 10 1000000 demo demoV).2.1.logs = [2] := by decide
